@@ -791,6 +791,41 @@ class GhostPointerDict:
         raise Unsupported(f'pointers.{name}')
 
 
+class _LocalList13:
+    def __init__(self, table):
+        self.table = table
+
+    def sym_method(self, I, name, a, k):
+        if name in ('append', 'extend'):
+            self.table.writes += 1
+            return None
+        raise Unsupported(f'list of a local table.{name}')
+
+
+class _LocalTable13:
+    """a dict local to the function that the loop fills: its content at an arbitrary iteration is unknown (some keys, each with some pointers).
+    Handing it to pointers.update() is judged by the model of update (keys unknown: an existing key may be replaced)."""
+    def __init__(self, name):
+        self.name, self.writes = name, 0
+
+    def sym_method(self, I, name, a, k):
+        if name == 'setdefault' and len(a) == 2:
+            self.writes += 1
+            return _LocalList13(self)
+        if name == 'get':
+            return _LocalList13(self) if I.e.branch(I.e.bool('local_table_has_key'), 'key in the local table') else (a[1] if len(a) > 1 else None)
+        raise Unsupported(f'local table {self.name}.{name}')
+
+    def sym_contains(self, I, key):
+        return I.e.bool('local_table_has_key')
+
+    def sym_getitem(self, I, key):
+        return _LocalList13(self)
+
+    def sym_setitem(self, I, key, v):
+        self.writes += 1
+
+
 class _InstallPointers(Contract):
     """every pointer produced by the reader / generator is stored under its own key, in order, and nothing else is stored"""
     props = ('C13', 'C06', 'C05')      # C05: a GVF file added to the run only adds pointers, the pointers of the files before it stay
@@ -832,12 +867,24 @@ class _InstallPointers(Contract):
             reg.func_(GVI, 'iterate_pointer', gen)
         return (inst,)
 
+    def havoc(self, I, env, k):
+        # a plain dict local to the function: unknown content at an arbitrary iteration
+        self._cur.locals = []
+        for nm, v in list(env.vars.items()):
+            if type(v) is dict and not nm.startswith('__'):
+                t = _LocalTable13(nm)
+                env.set(nm, t)
+                self._cur.locals.append(t)
+
     def on_head(self, I, env, k):
         self._cur.n0 = len(self._cur.log)
+        self._cur.w0 = sum(t.writes for t in getattr(self._cur, 'locals', []))
 
     def step(self, I, env, k):
         st = self._cur
         new = st.log[st.n0:]
+        if not new and sum(t.writes for t in getattr(st, 'locals', [])) > st.w0:
+            return []       # collected in a local table: judged where the table is merged into the pool
         ok = len(new) == 1
         good = False
         if ok:
@@ -853,7 +900,7 @@ class _InstallPointers(Contract):
 
     @property
     def loops(self):
-        return {0: LoopSpec(inv=lambda I, env, k: [], on_head=self.on_head, step=self.step)}
+        return {0: LoopSpec(inv=lambda I, env, k: [], havoc=self.havoc, on_head=self.on_head, step=self.step)}
 
 
 @register
@@ -1156,3 +1203,80 @@ class NativeGvfRoundTrip(NativeCheck):
 
 
 NATIVE = [NativeGvfRoundTrip()]
+
+
+# ----------------------------------------------------------------------------
+# metadata section of a GVF file: write -> parse
+# ----------------------------------------------------------------------------
+GMD = 'moPepGen/seqvar/GVFMetadata.py'
+
+
+class _MetaHandle13:
+    """a text file positioned at its start whose first lines are `lines` (each ends with a line break), followed by the column header"""
+    def __init__(self, lines):
+        self.lines, self.pos, self.log = list(lines), 0, []
+
+    def sym_method(self, I, name, a, kw):
+        if name == 'tell':
+            return ('pos', self.pos)
+        if name == 'readline':
+            ln = self.lines[self.pos] if self.pos < len(self.lines) else ''
+            self.pos += 1
+            return ln
+        if name == 'seek' and len(a) == 1 and isinstance(a[0], tuple) and a[0][0] == 'pos':
+            self.pos = a[0][1]
+            self.log.append(('seek', a[0][1]))
+            return None
+        raise Unsupported(f'handle.{name}')
+
+
+class _MetaRoundTrip(Contract):
+    """GVFMetadata.parse(handle) on the lines GVFMetadata.to_strings() wrote (followed by the column header) gives back the parser, source, chromosome
+    description, moPepGen version and the three reference paths (None for one that was not given), a metadata object that writes the identical lines
+    again (INFO table included), and leaves the handle at the first
+    line that is not metadata"""
+    path, qualname, props = GMD, 'GVFMetadata.parse', ('C13',)
+    models = (install_text,)
+    kind = 'with-reference-paths'
+    assumptions = ('assumed: parser name, source, version and paths contain no line break, and no = , < > quote at their ends (structured strings, pyvc/sstr.py); '
+                   'the INFO table is the Base table of the package',)
+
+    def name(self):
+        return f'{self.path}:{self.qualname}[{self.kind}]'
+
+    def setup(self, I):
+        st = types.SimpleNamespace()
+        paths = self.kind == 'with-reference-paths'
+        mod = I.repo.module('moPepGen/seqvar/GVFMetadataInfo.py')
+        info = I.eval_const(mod, mod.consts['GVF_METADATA_INFO'])['Base']
+        st.fields = dict(parser=Tok('parser'), source=Tok('source'), chrom=Tok('chrom_description'), version=Tok('version'),
+                         reference_index=Tok('index_dir') if paths else None, genome_fasta=Tok('genome_fasta') if paths else None,
+                         annotation_gtf=Tok('annotation_gtf') if paths else None)
+        st.info = info
+        st.meta = SymObj('GVFMetadata', alt={}, info=dict(info), added_types=[], additional=None, **st.fields)
+        lines = I.call_method(st.meta, 'to_strings', [], {})
+        st.n_lines = len(lines)
+        st.lines = list(lines)
+        st.handle = _MetaHandle13([sstr.build(sstr.flat(ln) + ['\n']) for ln in lines] + ['#CHROM\tPOS\tID\tREF\tALT\tQUAL\tFILTER\tINFO\n'])
+        st.args = [ClassRef('GVFMetadata', I.repo.get_class('GVFMetadata')), st.handle]
+        self._cur = st
+        return st
+
+    def post_return(self, I, st, ret):
+        e = I.e
+        f = ret.fields
+        for k, v in st.fields.items():
+            got = f.get(k, 'missing')
+            e.prove(f'C13/metadata/{self.kind}/{k}-read-back', z3.BoolVal(bool(got is v or (v is None and got is None))))
+        lines2 = I.call_method(ret, 'to_strings', [], {})
+        same = len(lines2) == len(st.lines) and all(as_bool(text_eq(I, a, b)) is True or z3.is_true(z3.simplify(as_bool(text_eq(I, a, b)))) for a, b in zip(st.lines, lines2))
+        e.prove(f'C13/metadata/{self.kind}/the-metadata-read-back-writes-the-identical-lines', z3.BoolVal(bool(same)))
+        e.prove(f'C13/metadata/{self.kind}/handle-left-at-the-column-header', z3.BoolVal(st.handle.pos == st.n_lines))
+
+    def post_raise(self, I, st, exc):
+        I.e.note(f'raised {exc.cls} {getattr(exc, "args", None)!r}')
+        I.e.prove(f'C13/metadata/{self.kind}/written-metadata-is-parsable', False)
+
+
+for _k in ('with-reference-paths', 'without-reference-paths'):
+    register(type(f'MetaRoundTrip_{_k.replace("-", "_")}', (_MetaRoundTrip,), dict(kind=_k, __doc__=_MetaRoundTrip.__doc__)))
